@@ -209,7 +209,7 @@ class TypeState:
         self.consts_stack.append(dict(consts))
         self.contexts += 1
         q = self.m.q(fn)
-        body = fn.body
+        body = q.body
         nb = len(body.blocks)
         IN = {0: dict(entry)}
         work = [0]
